@@ -7,7 +7,7 @@ cp /tmp/seedout/$ID/demo.rs $D/demo.rs
 cp /tmp/seedout/$ID/notes.md $D/notes.md 2>/dev/null
 python3 - "$ID" "$NEEDS" "$CAUGHT" > $D/meta.json <<'PY'
 import json,sys
-print(json.dumps({"property":sys.argv[1],"needs_to_manifest":sys.argv[2],
+print(json.dumps({"property":sys.argv[1][:3],"needs_to_manifest":sys.argv[2],
  "confirmed":"applied patch.diff in a scratch worktree of /repo: `cargo test --offline` (existing suite) passes; tests/seeded_demo.rs (= demo.rs) fails with the patch and passes without it",
  "check_result":sys.argv[3]},indent=1))
 PY
